@@ -182,9 +182,16 @@ def assignments(n):
 
 FREE = {"pubo_to_puso": ("bool", False), "puso_to_pubo": ("spin", False),
         "qubo_to_quso": ("bool", True), "quso_to_qubo": ("spin", True)}
-DOC_CONV = {  # documented result-type rule: exact Matrix type in -> Matrix type out, anything else -> labelled type
-    "pubo_to_puso": ("PUBOMatrix", "PUSOMatrix", "PUSO"), "puso_to_pubo": ("PUSOMatrix", "PUBOMatrix", "PUBO"),
-    "qubo_to_quso": ("QUBOMatrix", "QUSOMatrix", "QUSO"), "quso_to_qubo": ("QUSOMatrix", "QUBOMatrix", "QUBO")}
+# Result-type rule, written from the property text and from nothing else: "matrix type in gives matrix type
+# out, anything else gives the labelled type" — for each of the four free functions and every source type.
+MATRIX_OUT = {"pubo_to_puso": "PUSOMatrix", "puso_to_pubo": "PUBOMatrix",
+              "qubo_to_quso": "QUSOMatrix", "quso_to_qubo": "QUBOMatrix"}
+LABELLED_OUT = {"pubo_to_puso": "PUSO", "puso_to_pubo": "PUBO", "qubo_to_quso": "QUSO", "quso_to_qubo": "QUBO"}
+MATRIX_TYPES = ("QUBOMatrix", "QUSOMatrix", "PUBOMatrix", "PUSOMatrix")
+
+
+def type_rule(f, kind):
+    return MATRIX_OUT[f] if kind in MATRIX_TYPES else LABELLED_OUT[f]
 
 
 def conv_case(rng, malformed=False):
@@ -233,13 +240,17 @@ def conv_oracle(c, canon, r):
         if canon["err"] == "KeyError" and toolong and (quad or c["kind"] in DEG2):
             return None
         return "unexpected exception %s" % canon["err"]
-    exact, mat, lab = DOC_CONV[c["f"]]
-    want = mat if c["kind"] == exact else lab
+    found = []
+    want = type_rule(c["f"], c["kind"])
     if canon["type"] != want:
-        return "result type %s, documented rule gives %s" % (canon["type"], want)
+        # its own narrow signature (function, source type), so that a recorded finding about one pair never hides
+        # another pair; the value clause is still checked below
+        found.append(("C04:type-rule:%s:%s" % (c["f"], c["kind"]),
+                      "%s(%s) returned a %s; the rule 'matrix type in gives matrix type out, anything else gives "
+                      "the labelled type' gives %s" % (c["f"], c["kind"], canon["type"], want)))
     bad = common.keys_are_canonical(r)
     if bad:
-        return "result not canonical: " + bad
+        return found + [("C04:conv", "result not canonical: " + bad)]
     L = Labels(c["labels"])
     for bits in assignments(c["n"]):
         # boolean 0 <-> spin 1, boolean 1 <-> spin -1
@@ -249,9 +260,9 @@ def conv_oracle(c, canon, r):
         got = Fraction(r.value(tgt))
         got2 = obj_value(r.items(), {k: Fraction(v) for k, v in tgt.items()})
         if got != want or got2 != want:
-            return "value mismatch at source bits %s: source %s, target %s (value()) / %s (terms)" % (
-                bits, want, got, got2)
-    return None
+            return found + [("C04:conv", "value mismatch at source bits %s: source %s, target %s (value()) / %s (terms)" % (
+                bits, want, got, got2))]
+    return found
 
 
 # ------------------------------------------------------------------ family meth
@@ -763,8 +774,10 @@ def process(ctx, cases):
         ctx.traces += 1
         if canon != m:
             ctx.diff(fam, c, canon, m)
-        if bad:
-            ctx.violation("C04:" + fam, c, bad)
+        if isinstance(bad, str):
+            bad = [("C04:" + fam, bad)]
+        for sig, why in bad or []:
+            ctx.violation(sig, c, why)
 
 
 GEN = {"conv": conv_case, "meth": meth_case, "sol": sol_case, "export": export_case}
